@@ -22,6 +22,7 @@ LEVEL_TEXT += (' (E3.l must-pass) for every source the lazy interpreter evaluate
 LEVEL_TEXT += (" (C10.null) every scan arm passes the nullable-regex test on every round of the arm loop; the loop variable of for/comprehensions is registered with the iterated value's own checker facts.")
 
 LEVEL_TEXT += (" (C06.E) every element-checking loop of the checker reaches a check on every cycle; (C06.Q) the quantifier recorded per expression form follows the table (One for literals, calls, constants, regex captures, scoped reads; ZeroOrMore for list / set forms; the capture's own quantifier).")
+LEVEL_TEXT += (' (C06.U) every successful return of Stanza::check passes the `unused.is_empty()` edge.')
 CONJ = r"^phi\(\(rec BitAnd \(Try::branch\(checker::check\(&\*\(Iterator::next\(&IntoIterator::into_iter\(&\*arg:self\.%s\)\) as Some\)\.0, &\*arg:ctx\)\) as Continue\)\.0\.is_local\) \| true\)$"
 ELEMENT = r"^\(Try::branch\(checker::check\(&\*cast\(\*arg:self\.element\), &checker::CheckContext::CheckContext\{.*VariableMap::nested\(cast\(&\*\*arg:ctx\.locals\)\)\)\}\)\) as Continue\)\.0\.is_local$"
 
@@ -507,6 +508,13 @@ def run(prog, rep):
                             err = True
         rep.check(okd and filt and err, "C06.U", "%s :: unused captures" % f.id, f.loc(), "all.difference(used).filter(!starts_with(\"_\")) non-empty → UnusedCaptures",
                   "unused-capture detection changed (difference=%s, underscore filter=%s, error=%s)" % (okd, filt, err))
+        # ... and nothing short-cuts the test: the stanza is accepted only through the `unused.is_empty()` edge
+        from ..engines.e3_driver import success_blocks
+        ok_edges = {(g.src, g.dst) for b in sorted(body.reachable()) for g in switch_edges(body, tr, b) if re.match(r"^Vec::is_empty\(", canon(g.cond)) and g.value is True}
+        sb = success_blocks(body)
+        early = body.reach_from([0], edge_filter=lambda a, b2: (a, b2) not in ok_edges) & sb if ok_edges and sb else {-1}
+        rep.check(not early, "C06.U", "%s :: accepted only when nothing is unused" % f.id, f.loc(), "every successful return passes the `unused.is_empty()` test",
+                  "the stanza check can succeed without the unused-capture test (a successful return is reachable around `unused.is_empty()`)")
         # every statement's used captures are merged in
         ext = [(b, t) for b, t in body.calls() if is_callee(t, r"Extend<T>>::extend$|Extend::extend$")]
         for b, t in body.calls():      # `.map(|r| { used_captures.extend(r.used_captures); })` on the statement's result
